@@ -47,7 +47,7 @@ check("C02", "histsim", "exploration",
       "DESIGN.md 3/C02")
 check("C04", "histsim", "fault_enumeration",
       "Per scenario (project x store/format config x warm-up x edit x clock mode) the clean execution of the run after the edit is recorded, and every fault plan is executed from the same cache snapshot: crash before each mutating store op and after the last op, each single write / remove / commit failing through the store's own error path, torn temp-file write, all data / meta / meta_ex / all writes failing, plus sampled failure subsets; the following clean warm run must equal the cold run. Includes a determinism self-test.",
-      "Trusted: a completed syscall / committed sqlite transaction survives the kill (process death, not power loss); single-process build in this leg; scenarios are sampled by seed, plans per scenario are enumerated.",
+      "Trusted: a completed syscall / committed sqlite transaction survives the kill (process death, not power loss); the scenario families (128 generated projects incl. plugin changes, 24 plugin-change projects with independent leaf modules, 24 parallel-build scenarios with worker/coordinator crash points and worker store failures on the fixed schedule of sim/parsched.py) are finite and swept completely in the thorough tier, VERIF_SEED selects the quick sample; plans per scenario are enumerated.",
       "deterministic simulation with fault injection: store-op level crash-point and write-failure enumeration inside simulated runs, cold-run oracle",
       "DESIGN.md 3/C04")
 check("C07", "parsched", "exploration",
@@ -72,7 +72,7 @@ check("C03", "daemonsim", "exploration",
       "DESIGN.md 3/C03, 9.7")
 check("C20", "daemonsim", "exploration",
       "The sub-space of the property's inputs that storage faults produce: every single-step program of check-*.test (with its fixtures and flags) under torn / spliced / lost / duplicated / reordered sector and flipped byte saves at line, 16-byte and 64-byte granularity, executed as a batch history on one cache (run; faulty save; run; heal; run) and as a daemon history on one Server; every run must end 0/1/2 without INTERNAL ERROR, traceback, hang or malformed message lines, and must recover after the heal. Internal failures are reported only if they reproduce against the bundled typeshed.",
-      "Trusted: identifier cross-wiring and type-expression replacement mutations of the property are NOT covered (not storage faults); fixtures replace typeshed in the fast path; known findings are identified by crash signature (exception type + innermost mypy frame).",
+      "Trusted: identifier cross-wiring and type-expression replacement mutations of the property are NOT covered (not storage faults); fixtures replace typeshed in the fast path; the registered family is every 29th member of the full product (28736 faulty saves, swept completely in the thorough tier; VERIF_SEED selects the quick sample); known findings are identified by family member (leg, index).",
       "deterministic simulation with fault injection: faulty saves (torn, spliced, lost, duplicated, reordered, bit-flipped sectors) of corpus programs in batch and daemon histories",
       "DESIGN.md 3/C20")
 
